@@ -1,6 +1,439 @@
+/-
+  C06 — reordering, transposing, copying and renaming keep every value with its IDs.
+
+  Model of (biom/table.py): `sort_order`, `sort`, `align_to`, `transpose`, `copy`, `update_ids`,
+  with the pieces they are built from: the id → position index (`index` / `_index_ids` /
+  `util.index_list`), numpy fancy indexing of the matrix and of the metadata tuple, the
+  constructor's metadata normalisation and its `errcheck` under the default error profile
+  (`empty` is visited first and ignored, so an empty table is never checked for duplicates),
+  and the fixed-width numpy ID array that `update_ids` allocates (`'U%d' % max_str_len`).
+
+  External functions are inputs: `sort`'s `sort_f` contributes only the list it returned.
+
+  `holds` is the property, stated declaratively on observations (IDs, cells looked up by ID,
+  metadata entries looked up by ID, error class, receiver before/after) — it never refers to the model.
+-/
 import BiomModel.Codec
 open Lean
+
 namespace Biom.C06
-/-- stub: not built yet -/
-def handle (_req : Json) : Codec.R Json := .error "C06: model not built yet"
+
+variable {α β : Type}
+
+/-! ### building blocks -/
+
+/-- `len(set(ids)) == len(ids)` -/
+def distinct : List Id → Bool
+  | [] => true
+  | i :: is => !is.contains i && distinct is
+
+/-- `np.array([self.index(i, axis) for i in order])`: every requested ID is looked up in the
+id → position index; the first one that is not a key raises `UnknownIDError`. -/
+def positions (ids : List Id) : List Id → Except Err (List Nat)
+  | [] => .ok []
+  | i :: rest =>
+    match indexOf? ids i with
+    | none => .error .unknownId
+    | some p =>
+      match positions ids rest with
+      | .error e => .error e
+      | .ok ps => .ok (p :: ps)
+
+/-- numpy fancy indexing `xs[pos]` (a position out of range is skipped here; `positions` never
+produces one for a list as long as the ID list). -/
+def pick (xs : List β) (pos : List Nat) : List β := pos.filterMap (xs[·]?)
+
+/-- the constructor turns metadata whose entries are all empty (or an empty tuple) into `None` -/
+def normMd : Option (List Md) → Option (List Md)
+  | none => none
+  | some m => if m.all (·.isEmpty) then none else some m
+
+def norm (t : Table α) : Table α := { t with omd := normMd t.omd, smd := normMd t.smd }
+
+/-- `errcheck(table)` under the default profile.  Kinds are visited in sorted order and the first
+one that fires decides: `empty` (reaction `ignore`) comes first, so an empty table passes whatever
+else is wrong with it; otherwise duplicate IDs raise `TableException`.  (The size tests cannot fire
+for the tables built here: IDs, matrix and metadata are cut with the same positions.) -/
+def errcheck (t : Table α) : Except Err Unit :=
+  if t.obs.isEmpty || t.samp.isEmpty then .ok ()
+  else if distinct t.obs && distinct t.samp then .ok ()
+  else .error .tableException
+
+/-- `Table.__init__`: normalise metadata, `errcheck`. -/
+def ctor (t : Table α) : Except Err (Table α) :=
+  match errcheck t with
+  | .error e => .error e
+  | .ok _ => .ok (norm t)
+
+/-! ### the operations -/
+
+def sortOrder (t : Table α) (order : List Id) : Axis → Except Err (Table α)
+  | .samp =>
+    match positions t.samp order with
+    | .error e => .error e
+    | .ok fancy =>
+      ctor { t with samp := order, rows := t.rows.map (pick · fancy), smd := t.smd.map (pick · fancy) }
+  | .obs =>
+    match positions t.obs order with
+    | .error e => .error e
+    | .ok fancy =>
+      ctor { t with obs := order, rows := pick t.rows fancy, omd := t.omd.map (pick · fancy) }
+
+/-- `sort(sort_f, axis)` = `sort_order(sort_f(ids(axis)), axis)`; `sorted` is what `sort_f` returned. -/
+def sort (t : Table α) (sorted : List Id) (ax : Axis) : Except Err (Table α) := sortOrder t sorted ax
+
+inductive AAxis where
+  | sample | observation | both | detect | unknown
+  deriving Repr, DecidableEq, Inhabited
+
+/-- `set(a) == set(b)` -/
+def sameSet (a b : List Id) : Bool := a.all (b.contains ·) && b.all (a.contains ·)
+
+/-- the axis selection of `align_to`: which axes are sorted, in which sequence, or which error -/
+def alignAxes (t : Table α) (oObs oSamp : List Id) (ax : AAxis) : Except Err (List Axis) :=
+  let alO := sameSet t.obs oObs
+  let alS := sameSet t.samp oSamp
+  match ax with
+  | .both => if alO && alS then .ok [.obs, .samp] else .error .disjointId
+  | .sample => if alS then .ok [.samp] else .error .disjointId
+  | .observation => if alO then .ok [.obs] else .error .disjointId
+  | .detect =>
+    if alO || alS then .ok ((if alS then [.samp] else []) ++ (if alO then [.obs] else []))
+    else .error .disjointId
+  | .unknown => .error .unknownAxis
+
+def otherIds (oObs oSamp : List Id) : Axis → List Id
+  | .obs => oObs
+  | .samp => oSamp
+
+/-- `for aln_axis in order: table = table.sort_order(other.ids(axis=aln_axis), axis=aln_axis)` -/
+def sortAll (oObs oSamp : List Id) : List Axis → Table α → Except Err (Table α)
+  | [], t => .ok t
+  | a :: rest, t =>
+    match sortOrder t (otherIds oObs oSamp a) a with
+    | .error e => .error e
+    | .ok t' => sortAll oObs oSamp rest t'
+
+def alignTo (t : Table α) (oObs oSamp : List Id) (ax : AAxis) : Except Err (Table α) :=
+  match alignAxes t oObs oSamp ax with
+  | .error e => .error e
+  | .ok axes => sortAll oObs oSamp axes t
+
+/-- `transpose`: IDs and metadata of the two axes change places, the matrix is transposed; the
+new table is built without `type`. -/
+def transposeT (t : Table α) : Except Err (Table α) :=
+  ctor { obs := t.samp, samp := t.obs, rows := transposeGrid t.samp.length t.rows,
+         omd := t.smd, smd := t.omd, ttype := none }
+
+def copy (t : Table α) : Except Err (Table α) := ctor t
+
+/-- Python `max` of a list of lengths: `ValueError` on an empty list -/
+def maxLen : List Id → Except Err Nat
+  | [] => .error .value
+  | s :: rest => .ok (rest.foldl (fun m x => max m x.length) s.length)
+
+/-- `'U%d' % max_str_len`: the width of the freshly allocated ID array (numpy makes `U0` one wide) -/
+def idWidth (m : List (Id × Id)) (ids : List Id) (strict : Bool) : Except Err Nat :=
+  match maxLen (m.map (·.2)) with
+  | .error e => .error e
+  | .ok w =>
+    if strict then .ok (max w 1)
+    else match maxLen ids with
+      | .error e => .error e
+      | .ok w' => .ok (max (max w w') 1)
+
+/-- storing a string into a `U<w>` slot keeps its first `w` code points -/
+def fit (w : Nat) (s : Id) : Id := if s.length ≤ w then s else String.ofList (s.toList.take w)
+
+/-- the loop of `update_ids`: `updated_ids[idx] = id_map.get(old_id, old_id)`; a missing key is an
+error when `strict` -/
+def relabel (m : List (Id × Id)) (strict : Bool) (w : Nat) : List Id → Except Err (List Id)
+  | [] => .ok []
+  | old :: rest =>
+    match m.lookup old with
+    | none =>
+      if strict then .error .tableException
+      else match relabel m strict w rest with
+        | .error e => .error e
+        | .ok r => .ok (fit w old :: r)
+    | some new =>
+      match relabel m strict w rest with
+      | .error e => .error e
+      | .ok r => .ok (fit w new :: r)
+
+def setIds (t : Table α) (ax : Axis) (ids : List Id) : Table α :=
+  match ax with
+  | .obs => { t with obs := ids }
+  | .samp => { t with samp := ids }
+
+/-- what a call leaves behind: the returned table or the error class, the receiver afterwards,
+whether the returned object is the receiver, and (for `sort`) the argument `sort_f` was given -/
+structure Out (α : Type) where
+  result : Except Err (Table α)
+  after : Table α
+  same : Bool := false
+  sortArg : Option (List Id) := none
+
+def updateIds (t : Table α) (m : List (Id × Id)) (ax : Axis) (strict inplace : Bool) : Out α :=
+  match idWidth m (t.ids ax) strict with
+  | .error e => { result := .error e, after := t }
+  | .ok w =>
+    match relabel m strict w (t.ids ax) with
+    | .error e => { result := .error e, after := t }
+    | .ok ids' =>
+      if inplace then
+        if !distinct ids' then { result := .error .tableException, after := t }
+        else
+          let r := setIds t ax ids'
+          match errcheck r with
+          | .error e => { result := .error e, after := r, same := true }
+          | .ok _ => { result := .ok r, after := r, same := true }
+      else
+        match copy t with
+        | .error e => { result := .error e, after := t }
+        | .ok c =>
+          let r := setIds c ax ids'
+          match errcheck r with
+          | .error e => { result := .error e, after := t }
+          | .ok _ => { result := .ok r, after := t }
+
+inductive Op where
+  | sortOrder (order : List Id) (ax : Axis)
+  | sort (sorted : List Id) (ax : Axis)
+  | alignTo (oObs oSamp : List Id) (ax : AAxis)
+  | transpose
+  | copy
+  | updateIds (m : List (Id × Id)) (ax : Axis) (strict inplace : Bool)
+  deriving Repr, DecidableEq
+
+def run (t : Table α) : Op → Out α
+  | .sortOrder order ax => { result := sortOrder t order ax, after := t }
+  | .sort sorted ax => { result := sort t sorted ax, after := t, sortArg := some (t.ids ax) }
+  | .alignTo oo os ax => { result := alignTo t oo os ax, after := t }
+  | .transpose => { result := transposeT t, after := t }
+  | .copy => { result := copy t, after := t }
+  | .updateIds m ax strict inplace => updateIds t m ax strict inplace
+
+/-! ### the property, on observations only -/
+
+section Holds
+variable [DecidableEq α]
+
+/-- a table of the domain: rectangular, one metadata entry per ID, IDs distinct on both axes -/
+def valid (t : Table α) : Bool := t.wfb && distinct t.obs && distinct t.samp
+
+/-- the metadata entry of an ID; absent metadata counts as an empty entry -/
+def mdE (t : Table α) (ax : Axis) (id : Id) : Md := (t.mdOf? ax id).getD []
+
+/-- every (observation ID, sample ID) pair of `r` has a value, and it is the value `t` has for it -/
+def cellsById (t r : Table α) : Bool :=
+  r.obs.all fun o => r.samp.all fun s => (r.cell? o s).isSome && decide (r.cell? o s = t.cell? o s)
+
+/-- every ID of `r` on the axis carries the entry it carries in `t` -/
+def mdById (t r : Table α) (ax : Axis) : Bool :=
+  (r.ids ax).all fun id => decide (mdE r ax id = mdE t ax id)
+
+def keptById (t r : Table α) : Bool :=
+  r.wfb && cellsById t r && mdById t r .obs && mdById t r .samp
+
+def isErr (x : Except Err (Table α)) (e : Err) : Bool :=
+  match x with
+  | .error e' => decide (e' = e)
+  | .ok _ => false
+
+def isOk (x : Except Err (Table α)) : Bool :=
+  match x with
+  | .error _ => false
+  | .ok _ => true
+
+def onOk (x : Except Err (Table α)) (p : Table α → Bool) : Bool :=
+  match x with
+  | .error _ => true
+  | .ok r => p r
+
+abbrev Clauses := List (String × Bool)
+
+/-- `sort_order(order, axis)` -/
+def sortOrderClauses (t : Table α) (order : List Id) (ax : Axis) (o : Out α) : Clauses :=
+  let unknown := order.any (fun i => !(t.ids ax).contains i)
+  let dup := !distinct order
+  -- an empty table is never checked for duplicate IDs; such tables are outside the domain
+  let masked := dup && (t.ids ax.other).isEmpty
+  [("receiver.valid", valid t),
+   ("receiver.unchanged", decide (o.after = t) && !o.same),
+   ("refuse.unknown_id", !unknown || isErr o.result .unknownId),
+   ("refuse.duplicate_in_order", unknown || !dup || masked || isErr o.result .tableException),
+   ("accept", unknown || dup || isOk o.result),
+   ("result.order_is_requested", masked || onOk o.result fun r => decide (r.ids ax = order)),
+   ("result.no_id_gained_lost_duplicated",
+      masked || onOk o.result fun r => !(order.isPerm (t.ids ax)) || ((r.ids ax).isPerm (t.ids ax) && distinct (r.ids ax))),
+   ("result.other_axis_unchanged", masked || onOk o.result fun r => decide (r.ids ax.other = t.ids ax.other)),
+   ("result.cells_and_metadata_by_id", masked || onOk o.result fun r => keptById t r)]
+
+def alignedAxes (t : Table α) (oObs oSamp : List Id) (ax : AAxis) : Option (List Axis) :=
+  let alO := sameSet t.obs oObs
+  let alS := sameSet t.samp oSamp
+  match ax with
+  | .both => if alO && alS then some [.obs, .samp] else none
+  | .sample => if alS then some [.samp] else none
+  | .observation => if alO then some [.obs] else none
+  | .detect => if alO || alS then some ((if alO then [.obs] else []) ++ (if alS then [.samp] else [])) else none
+  | .unknown => none
+
+/-- `align_to(other, axis)`; `oObs`/`oSamp` are the other table's IDs -/
+def alignToClauses (t : Table α) (oObs oSamp : List Id) (ax : AAxis) (o : Out α) : Clauses :=
+  let want := alignedAxes t oObs oSamp ax
+  let expectIds (a : Axis) : List Id :=
+    match want with
+    | some axes => if axes.contains a then otherIds oObs oSamp a else t.ids a
+    | none => t.ids a
+  [("receiver.valid", valid t),
+   ("other.valid", distinct oObs && distinct oSamp),
+   ("receiver.unchanged", decide (o.after = t) && !o.same),
+   ("refuse.unknown_axis", !(decide (ax = .unknown)) || isErr o.result .unknownAxis),
+   ("refuse.disjoint", decide (ax = .unknown) || want.isSome || isErr o.result .disjointId),
+   ("accept", want.isNone || isOk o.result),
+   ("result.aligned_axes_in_other_order",
+      onOk o.result fun r => decide (r.obs = expectIds .obs) && decide (r.samp = expectIds .samp)),
+   ("result.cells_and_metadata_by_id", onOk o.result fun r => keptById t r)]
+
+/-- `transpose()` -/
+def transposeClauses (t : Table α) (o : Out α) : Clauses :=
+  [("receiver.valid", valid t),
+   ("receiver.unchanged", decide (o.after = t) && !o.same),
+   ("accept", isOk o.result),
+   ("result.axes_swapped", onOk o.result fun r => decide (r.obs = t.samp) && decide (r.samp = t.obs) && r.wfb),
+   ("result.cells_swapped", onOk o.result fun r =>
+      t.obs.all fun ob => t.samp.all fun s => (r.cell? s ob).isSome && decide (r.cell? s ob = t.cell? ob s)),
+   ("result.metadata_swapped", onOk o.result fun r =>
+      (t.obs.all fun id => decide (mdE r .samp id = mdE t .obs id)) &&
+      (t.samp.all fun id => decide (mdE r .obs id = mdE t .samp id)))]
+
+/-- `copy()` -/
+def copyClauses (t : Table α) (o : Out α) : Clauses :=
+  [("receiver.valid", valid t),
+   ("receiver.unchanged", decide (o.after = t) && !o.same),
+   ("accept", isOk o.result),
+   ("result.same_ids_same_order", onOk o.result fun r => decide (r.obs = t.obs) && decide (r.samp = t.samp)),
+   ("result.cells_and_metadata_by_id", onOk o.result fun r => keptById t r),
+   ("result.type_kept", onOk o.result fun r => decide (r.ttype = t.ttype))]
+
+/-- the renaming a call to `update_ids` asks for: `id_map.get(old, old)` -/
+def target (m : List (Id × Id)) (ids : List Id) : List Id := ids.map fun i => (m.lookup i).getD i
+
+/-- cells and metadata follow the relabelling: what `old` had, `new` has -/
+def relabelled (t r : Table α) (ax : Axis) (pairs : List (Id × Id)) : Bool :=
+  (pairs.all fun (old, new) => decide (mdE r ax new = mdE t ax old)) &&
+  match ax with
+  | .obs => pairs.all fun (old, new) => t.samp.all fun s =>
+      (r.cell? new s).isSome && decide (r.cell? new s = t.cell? old s)
+  | .samp => pairs.all fun (old, new) => t.obs.all fun ob =>
+      (r.cell? ob new).isSome && decide (r.cell? ob new = t.cell? ob old)
+
+/-- `update_ids(id_map, axis, strict, inplace)` -/
+def updateIdsClauses (t : Table α) (m : List (Id × Id)) (ax : Axis) (strict inplace : Bool) (o : Out α) : Clauses :=
+  let ids := t.ids ax
+  let want := target m ids
+  let missing := strict && ids.any fun i => (m.lookup i).isNone
+  let collide := !distinct want
+  -- an empty table is never checked for duplicates on the non-inplace path; outside the domain
+  let masked := collide && !inplace && ((t.ids ax.other).isEmpty || ids.isEmpty)
+  let refused := !isOk o.result
+  [("receiver.valid", valid t),
+   ("degenerate_map_not_a_crash", !(m.isEmpty || (!strict && ids.isEmpty)) || !isErr o.result .value),
+   ("refuse.missing_key_when_strict", !missing || isErr o.result .tableException),
+   ("refuse.non_injective", missing || !collide || masked || isErr o.result .tableException),
+   ("accept", missing || collide || isOk o.result),
+   ("receiver.unchanged_on_refusal", !refused || (decide (o.after = t))),
+   ("receiver.inplace_flag", refused ||
+      (if inplace then o.same && onOk o.result (fun r => decide (r = o.after)) else !o.same && decide (o.after = t))),
+   ("result.ids_relabelled_in_place", masked || onOk o.result fun r =>
+      decide (r.ids ax = want) && decide (r.ids ax.other = t.ids ax.other) && r.wfb),
+   ("result.cells_and_metadata_follow_renaming", masked || onOk o.result fun r =>
+      relabelled t r ax (ids.zip want) && mdById t r ax.other)]
+
+def clauses (t : Table α) (op : Op) (o : Out α) : Clauses :=
+  match op with
+  | .sortOrder order ax => sortOrderClauses t order ax o
+  | .sort sorted ax =>
+    ("sort_f.given_the_axis_ids", decide (o.sortArg = some (t.ids ax))) :: sortOrderClauses t sorted ax o
+  | .alignTo oo os ax => alignToClauses t oo os ax o
+  | .transpose => transposeClauses t o
+  | .copy => copyClauses t o
+  | .updateIds m ax strict inplace => updateIdsClauses t m ax strict inplace o
+
+def holds (t : Table α) (op : Op) (o : Out α) : Bool := (clauses t op o).all (·.2)
+
+def firstFailing (cs : Clauses) : Option String := (cs.find? (fun c => !c.2)).map (·.1)
+
+/-- "restores the original IDs, order, values and metadata": content equality of two tables -/
+def restored (t r : Table α) : Bool :=
+  decide (r.obs = t.obs) && decide (r.samp = t.samp) && keptById t r
+
+end Holds
+
+/-! ### JSON glue -/
+open Codec
+
+def asAAxis (j : Json) : R AAxis := do
+  match (← asStr j) with
+  | "sample" => pure .sample
+  | "observation" => pure .observation
+  | "both" => pure .both
+  | "detect" => pure .detect
+  | _ => pure .unknown
+
+def asPairs (j : Json) : R (List (Id × Id)) := asList (fun p => do
+  match (← asArr p) with
+  | [a, b] => pure ((← asStr a), (← asStr b))
+  | _ => .error "pair expected") j
+
+def asOp (j : Json) : R Op := do
+  match (← strF j "op") with
+  | "sort_order" => pure (.sortOrder (← listF asStr j "order") (← axisF j "axis"))
+  | "sort" => pure (.sort (← listF asStr j "sorted") (← axisF j "axis"))
+  | "align_to" => pure (.alignTo (← listF asStr j "other_obs") (← listF asStr j "other_samp") (← asAAxis (← fld j "axis")))
+  | "transpose" => pure .transpose
+  | "copy" => pure .copy
+  | "update_ids" => pure (.updateIds (← asPairs (← fld j "id_map")) (← axisF j "axis") (← boolF j "strict") (← boolF j "inplace"))
+  | s => .error s!"bad op {s}"
+
+def asResult (j : Json) : R (Except Err (Table Rat)) := do
+  match optFld j "error" with
+  | some e => pure (.error (asErr (← asStr e)))
+  | none => pure (.ok (← asTable (← fld j "ok")))
+
+def asOut (j : Json) : R (Out Rat) := do
+  pure { result := (← asResult (← fld j "result")), after := (← asTable (← fld j "after")),
+         same := (← boolFD j "same" false), sortArg := (← optF (asList asStr) j "sort_arg") }
+
+def outToJson (o : Out Rat) : Json :=
+  Json.mkObj [("result", exceptToJson tableToJson o.result), ("after", tableToJson o.after),
+    ("same", .bool o.same), ("sort_arg", optToJson strsToJson o.sortArg)]
+
+def resultAgrees (a b : Except Err (Table Rat)) : Bool :=
+  match a, b with
+  | .ok x, .ok y => decide (x = y)
+  | .error e, .error f => decide (e = f)
+  | _, _ => false
+
+/-- request {"op":…, args…, "table": receiver before the call, "obs": {"result","after","same","sort_arg"}}
+    or {"op":"restored","table":…,"result":…} -/
+def handle (req : Json) : R Json := do
+  let t ← asTable (← fld req "table")
+  if (← strF req "op") == "restored" then
+    let r ← asTable (← fld req "result")
+    let h := restored t r
+    return Json.mkObj [("holds", .bool h), ("clause", if h then .null else "restored.same_content"),
+      ("agree", .bool (decide (r = t))), ("model", tableToJson t), ("model_holds", .bool (restored t t))]
+  let op ← asOp req
+  let obs ← asOut (← fld req "obs")
+  let mo := run t op
+  let cs := clauses t op obs
+  let agree := resultAgrees mo.result obs.result && decide (mo.after = obs.after) &&
+    mo.same == obs.same && mo.sortArg == obs.sortArg
+  pure (Json.mkObj (verdictToJson (firstFailing cs) ++
+    [("agree", .bool agree), ("model", outToJson mo), ("model_holds", .bool (holds t op mo)),
+     ("model_clause", optToJson Json.str (firstFailing (clauses t op mo)))]))
+
 end Biom.C06
